@@ -120,6 +120,9 @@ func (e *Engine) forkCallee(fr *frame, in ssa.Instruction) *ssa.Function {
 	if fn == nil || fn.Blocks == nil || !e.Cfg.ForkFuncs[fn.Name()] || len(fn.FreeVars) > 0 {
 		return nil
 	}
+	if _, stubbed := e.Cfg.Intrinsics[fn.String()]; stubbed {
+		return nil
+	}
 	return fn
 }
 
